@@ -208,6 +208,19 @@ pub trait Shape: Flat {
     fn flex_push_default<LL: LenShape>(_fv: &mut FlexVec<Self, LL>) -> Option<Result<(), Error>> {
         None
     }
+    /// `UninitSendGuard::default_in_place()` (only exists for FlatDefault types; Err gives the guard back)
+    #[allow(clippy::type_complexity)]
+    fn guard_default<'a, B: flatty_io::WriteBuffer + 'a>(
+        g: flatty_io::blocking::UninitSendGuard<'a, Self, B>,
+    ) -> Result<Result<flatty_io::blocking::SendGuard<'a, Self, B>, Error>, flatty_io::blocking::UninitSendGuard<'a, Self, B>> {
+        Err(g)
+    }
+    #[allow(clippy::type_complexity)]
+    fn async_guard_default<'a, B: flatty_io::AsyncWriteBuffer + 'a>(
+        g: flatty_io::async_::UninitSendGuard<'a, Self, B>,
+    ) -> Result<Result<flatty_io::async_::SendGuard<'a, Self, B>, Error>, flatty_io::async_::UninitSendGuard<'a, Self, B>> {
+        Err(g)
+    }
     fn native_size_align() -> Option<(usize, usize)> {
         None
     }
@@ -245,6 +258,16 @@ macro_rules! default_glue {
         }
         fn flex_push_default<LL: LenShape>(fv: &mut FlexVec<Self, LL>) -> Option<Result<(), Error>> {
             Some(fv.push_default().map(|_| ()))
+        }
+        fn guard_default<'a, B: flatty_io::WriteBuffer + 'a>(
+            g: flatty_io::blocking::UninitSendGuard<'a, Self, B>,
+        ) -> Result<Result<flatty_io::blocking::SendGuard<'a, Self, B>, Error>, flatty_io::blocking::UninitSendGuard<'a, Self, B>> {
+            Ok(g.default_in_place())
+        }
+        fn async_guard_default<'a, B: flatty_io::AsyncWriteBuffer + 'a>(
+            g: flatty_io::async_::UninitSendGuard<'a, Self, B>,
+        ) -> Result<Result<flatty_io::async_::SendGuard<'a, Self, B>, Error>, flatty_io::async_::UninitSendGuard<'a, Self, B>> {
+            Ok(g.default_in_place())
         }
     };
 }
